@@ -212,6 +212,12 @@ func newCLWorld(c *vk.Ctx, r *vk.Rng, hooks clHooks) *clWorld {
 		w.nbrPos = map[uint64]int{}
 		w.nbrCreate(3, cltypes.MinInitializedTick, cltypes.MaxTick)
 		c.Logf("neighbour pool %d", w.nbrID)
+		// an incentive with the longest authorised uptime from the start: young positions forfeit what they accrue
+		long := w.uptimes[len(w.uptimes)-1]
+		cctx, write := w.ch.Ctx.CacheContext()
+		if _, err := k.CreateIncentive(cctx, w.nbrID, w.funder.Addr, sdk.NewCoin(w.incentDenoms[r.Intn(len(w.incentDenoms))], w.amount(12, 18)), sdkmath.LegacyNewDecFromBigIntWithPrec(r.BigMag(18, 24), 18), w.ch.Ctx.BlockTime(), long); err == nil {
+			write()
+		}
 	}
 	return w
 }
@@ -676,7 +682,7 @@ func (w *clWorld) step(mix string) string {
 		w.c.Logf("governance: authorised uptimes = %v", sub)
 		return "governance-uptimes"
 	}
-	if w.nbrID != 0 && r.Intn(10) == 0 {
+	if w.nbrID != 0 && r.Intn(6) == 0 {
 		if op := w.nbrStep(); op != "" {
 			return op
 		}
